@@ -922,6 +922,10 @@ static addrxlat_status x_get_page(const addrxlat_cb_t *cb, addrxlat_buffer_t *bu
 static addrxlat_status x_sym(char kind, const char *a1, const char *a2, addrxlat_addr_t *val)
 {
 	int i;
+	/* "Y ERR <name> - 0": the callback fails for this name (with something else than NODATA) */
+	for (i = 0; i < nxsym; ++i)
+		if (xsyms[i].kind == 'E' && !strcmp(xsyms[i].a1, a1))
+			return addrxlat_ctx_err(xcb_ctx, ADDRXLAT_ERR_NOTIMPL, "Callback refuses %s", a1);
 	for (i = 0; i < nxsym; ++i)
 		if (xsyms[i].kind == kind && !strcmp(xsyms[i].a1, a1) && (!a2 || !strcmp(xsyms[i].a2, a2))) {
 			*val = xsyms[i].val; return ADDRXLAT_OK;
